@@ -1,8 +1,8 @@
 SPECIFICATION Spec
 CONSTANTS
-  Alphabet <- AlphaMirror
+  Alphabet <- AlphaScope
   AfterFailure <- AfterFail
-  MaxLines = 5
+  MaxLines = 7
   AsFoundNoFinalFlush = FALSE
   AsFoundDeferredLine = FALSE
 INVARIANT OutIsResult
